@@ -12,8 +12,14 @@ for d in sorted(glob.glob("/verif/seeded/C??-*")):
             first = t
             break
     own = m.get("own_check", {})
-    hist = "; ".join(m.get("history", []))
-    rows.append((os.path.basename(d), own.get("exit"), ", ".join(m.get("caught_by", [])), hist, first[:150]))
+    h = m.get("history", [])
+    hist = h if isinstance(h, str) else "; ".join(h)
+    prop = m.get("breaks_property") or m.get("property") or os.path.basename(d)[:3]
+    rc = own.get("exit")
+    if rc is None:
+        # no separate re-run of the own check was filed: the full evaluation decides
+        rc = 1 if prop in m.get("caught_by", []) else 0
+    rows.append((os.path.basename(d), rc, ", ".join(m.get("caught_by", [])), hist, first[:150]))
 print("| change | own check | reported by (quick tier) | note |")
 print("|---|---|---|---|")
 for b, rc, caught, hist, first in rows:
